@@ -2,6 +2,7 @@ import RjModel.Props.C13
 import RjModel.Model.Settings
 import RjModel.Generated.PanicSites
 import RjModel.Generated.Constants
+import RjModel.Model.Progress
 /-! # C18 — no input makes rjrssync crash
 
 Lean's totality says nothing about Rust panics.  What the proof side contributes is (1) a closed
@@ -66,5 +67,98 @@ theorem C18_root_nonempty :
       · by_cases h3 : s'.dest = ""
         · simp [h1, h3] at h2
         · simp only [h1, ↓reduceIte, h3, Option.some.injEq] at h2; subst h2; exact ⟨h1, h3⟩
+
+/-! ### the progress accounting: `debug_assert!(sent <= total)`, `debug_assert_eq!(total, sent)` -/
+
+theorem PV.add_def (a b : PV) : a + b = ⟨a.work + b.work, a.delete + b.delete, a.copy + b.copy, a.copyBytes + b.copyBytes⟩ := rfl
+
+/-- the chunk lengths of a successfully relayed file reach `size` exactly with the last chunk, not before
+(C11: the relay succeeds iff the lengths total the listed size, and the look-ahead reader emits no empty
+chunk unless the file is empty — so no chunk follows the one that reaches the size) -/
+def ReachesAtEnd (size : Nat) : Nat → List Nat → Prop
+  | _, [] => False
+  | start, [l] => start + l = size
+  | start, l :: l2 :: rest => start + l < size ∧ ReachesAtEnd size (start + l) (l2 :: rest)
+
+theorem partial_sum (minSz size : Nat) (lens : List Nat) (start : Nat) (h : ReachesAtEnd size start lens) :
+    sumPartial minSz size start lens = ⟨(if size > minSz then lens.sum else minSz), 0, 1, lens.sum⟩ := by
+  induction lens generalizing start with
+  | nil => exact absurd h (by simp [ReachesAtEnd])
+  | cons l rest ih =>
+    cases rest with
+    | nil =>
+      simp only [ReachesAtEnd] at h
+      simp only [sumPartial, forCopyPartial, PV.add_def, List.sum_cons, List.sum_nil]
+      have : ¬ start + l < size := by omega
+      simp only [this, ↓reduceIte]
+      split <;> simp
+    | cons l2 rest' =>
+      obtain ⟨h1, h2⟩ := h
+      rw [sumPartial, ih (start + l) h2]
+      simp only [forCopyPartial, h1, ↓reduceIte, PV.add_def, List.sum_cons]
+      split <;> simp <;> omega
+
+theorem reaches_sum (size : Nat) (lens : List Nat) (start : Nat) (h : ReachesAtEnd size start lens) : start + lens.sum = size := by
+  induction lens generalizing start with
+  | nil => exact absurd h (by simp [ReachesAtEnd])
+  | cons l rest ih =>
+    cases rest with
+    | nil => simpa [ReachesAtEnd] using h
+    | cons l2 rest' =>
+      obtain ⟨-, h2⟩ := h
+      have := ih (start + l) h2
+      simp only [List.sum_cons] at this ⊢; omega
+
+/-- **`total == sent` when a file has been relayed**: whatever the chunking — any number of chunks of
+any lengths that reach the listed size with the last chunk — what the chunk loop adds to `sent`
+(`for_copy_partial` per chunk) is exactly what `for_copy` put into `total` for that file: one copy,
+`size` bytes, `max(size, MIN_FILE_SIZE)` work.  So `debug_assert_eq!(self.total, self.sent)` in
+`all_work_sent` cannot fire after successful relays, for any `MIN_FILE_SIZE`. -/
+theorem C18_progress_chunks_sum (minSz size : Nat) (lens : List Nat) (h : ReachesAtEnd size 0 lens) :
+    sumPartial minSz size 0 lens = forCopyFile minSz size := by
+  have hs := reaches_sum size lens 0 h
+  rw [partial_sum minSz size lens 0 h]
+  simp only [forCopyFile, PV.mk.injEq, true_and]
+  have : lens.sum = size := by omega
+  refine ⟨?_, this⟩
+  rw [this]; split <;> omega
+
+/-- **`sent ≤ total` at every moment of a relay**: after any initial part of the chunks the file counts
+at most once, at most `size` bytes and at most `max(size, MIN_FILE_SIZE)` work
+(`debug_assert!(self.sent.copy <= self.total.copy)` in `get_progress_marker`). -/
+theorem C18_progress_prefix_le (minSz size : Nat) (lens : List Nat) (start : Nat) (h : ReachesAtEnd size start lens)
+    (pre suf : List Nat) (hsplit : lens = pre ++ suf) :
+    (sumPartial minSz size start pre).copy ≤ 1 ∧ (sumPartial minSz size start pre).copyBytes ≤ lens.sum ∧
+    (sumPartial minSz size start pre).work ≤ (if size > minSz then lens.sum else minSz) := by
+  induction pre generalizing start lens with
+  | nil => simp [sumPartial]
+  | cons l pre' ih =>
+    cases suf with
+    | nil =>
+      -- the whole list
+      rw [List.append_nil] at hsplit
+      rw [← hsplit, partial_sum minSz size lens start h]; simp
+    | cons x suf' =>
+      -- a proper prefix: `l` is not the last chunk
+      subst hsplit
+      cases hp : pre' ++ x :: suf' with
+      | nil => simp at hp
+      | cons l2 rest' =>
+        simp only [List.cons_append, hp] at h
+        obtain ⟨h1, h2⟩ := h
+        have := ih (l2 :: rest') (start + l) h2 (by rw [← hp])
+        simp only [sumPartial, forCopyPartial, h1, ↓reduceIte, PV.add_def, List.cons_append, hp, List.sum_cons] at this ⊢
+        refine ⟨by omega, by omega, ?_⟩
+        split <;> simp_all <;> omega
+
+/-- the guard is needed: a stream in which an (empty) chunk follows the one that reached the size counts
+the file twice — `sent.copy = 2 > total.copy = 1`, the assertion would fire in a debug build.  The
+look-ahead reader never produces such a stream (C11_chunks), and a doer that did would be a broken peer,
+not an input. -/
+theorem C18_progress_double_count_witness : (sumPartial 10 4 0 [4, 0]).copy = 2 := by decide
+
+/-- Non-vacuity: 4096 + 8192 + 100 bytes reach 12388 with the last chunk -/
+example : ReachesAtEnd 12388 0 [4096, 8192, 100] ∧ sumPartial 1048576 12388 0 [4096, 8192, 100] = forCopyFile 1048576 12388 := by
+  refine ⟨by simp [ReachesAtEnd], by decide⟩
 
 end Rj.C18
